@@ -78,6 +78,24 @@ theorem callFn_isGraphic (c : Ctx) (env : Env) (r : Int) : callFn c env "unicode
 theorem callFn_isPrint (c : Ctx) (env : Env) (r : Int) : callFn c env "unicode.IsPrint" [.int r] = .bool (c.u.isPrint r) := rfl
 theorem callFn_toUpper (c : Ctx) (env : Env) (r : Int) : callFn c env "unicode.ToUpper" [.int r] = .int (c.u.toUpper r) := rfl
 theorem callFn_toLower (c : Ctx) (env : Env) (r : Int) : callFn c env "unicode.ToLower" [.int r] = .int (c.u.toLower r) := rfl
+theorem lookupKey_map1 {α β : Type} (k : Int) (t : List (Int × β)) (g : β → α) :
+    lookupKey [k] (t.map fun e => ([e.1], g e.2)) = (lookup k t).map g := by
+  induction t with
+  | nil => rfl
+  | cons e t ih =>
+    obtain ⟨k', v⟩ := e
+    simp only [List.map, lookupKey, lookup]
+    by_cases h : k = k'
+    · simp [h]
+    · simp [h, ih]
+
+theorem callFn_sprintf (c : Ctx) (env : Env) (f : Str) (rest : List V) :
+    callFn c env "fmt.Sprintf" (.str f :: rest) = sprintfAux c.fmtD f false rest [] := rfl
+theorem callFn_bufString (c : Ctx) (env : Env) :
+    callFn c env "buf.String" [] = (match env.lookup "buf" with | some (.str b) => .str b | _ => .err "buf.String") := by
+  unfold callFn
+  simp only [String.reduceEq, reduceIte, or_self]
+  split <;> simp_all
 theorem callFn_newBuffer (c : Ctx) (env : Env) : callFn c env "bytes.NewBuffer" [.unit] = .str [] := rfl
 
 end VaxisModel.Lemmas.GoInterp
